@@ -1,4 +1,5 @@
 """C12 — controller matches entanglement responses to requests under any interleaving."""
+import hashlib
 import json
 
 from check import Result
@@ -63,7 +64,8 @@ def _run_case(ctx, res, H, sc, toks, tag):
     if orc.mixed:
         res.count("mixed-type-key")
     if len(orc.consumed) > 0:
-        res.nontrivial.add((tag, json.dumps(sc.desc(), sort_keys=True), json.dumps(toks)))
+        res.nontrivial.add(hashlib.sha1((tag + json.dumps(sc.desc(), sort_keys=True) + json.dumps(toks))
+                                        .encode()).hexdigest()[:20])
     if d is not None:
         res.disagreements.append({"stream": "epr.run", "input": {"scenario": sc.desc(), "schedule": toks},
                                   "model": d.get("model", d), "code": d.get("code", d)})
@@ -85,22 +87,26 @@ def run(ctx):
     H.quiet()
     res = Result()
     res.rule = ("a case = (scenario, schedule); non-trivial when at least one response was consumed by a "
-                "request; distinct by (scenario programs + responses, schedule)")
+                "request; distinct by hash of (scenario programs + responses, schedule)")
     rng = ctx.rng
-    n_random = 12000 if ctx.thorough else 2500
+    n_random = 40000 if ctx.thorough else 2500
     for i in range(n_random):
         mal = rng.random() < 0.12
         sc = H.gen_scenario(rng, malformed=mal)
         toks = H.random_schedule(sc, rng)
         _run_case(ctx, res, H, sc, toks, "rnd")
-    # exhaustive interleavings of small scenarios (one subroutine)
-    n_small = 60 if ctx.thorough else 6
-    cap = 4000 if ctx.thorough else 300
+    # exhaustive interleavings of small scenarios (one subroutine): every merge of the instruction
+    # sequence with the per-queue response sequences; counted as complete when not cut by the cap
+    n_small = 45 if ctx.thorough else 6
+    cap = 2500 if ctx.thorough else 300
     for i in range(n_small):
-        sc = H.gen_scenario(rng, max_reqs=2 if not ctx.thorough else 3, max_pairs=2 if i % 2 else 3, small=True)
+        sc = H.gen_scenario(rng, max_reqs=2, max_pairs=2 if i % 2 else 3, small=True)
+        k = 0
         for toks in H.exhaustive_schedules(sc, cap):
             _run_case(ctx, res, H, sc, toks, "exh")
-            res.count("exhaustive-schedules")
+            k += 1
+        res.count("exhaustive-schedules", k)
+        res.count("exhaustive-scenarios-complete" if k < cap else "exhaustive-scenarios-cut-by-cap")
     return res
 
 
